@@ -12,7 +12,7 @@ import (
 // C12: an environment value can only satisfy an option, never restrict the command line.
 
 func init() {
-	register(&CheckDef{Name: "env", Props: []string{"C12"}, Run: runEnv, Replay: replayEnv})
+	register(&CheckDef{Name: "env", Props: []string{"C12", "C15"}, Run: runEnv, Replay: replayEnv})
 }
 
 var envSets = []map[string]string{{"a": "true"}, {"o": "ev"}, {"a": "true", "o": "ev"}}
@@ -98,6 +98,21 @@ func envCase(c *Ctx, d *ref.Decl, spec string, node *ref.Node, argv []string, r 
 		}
 		if base.Accepted || obs.Accepted {
 			c.Count("nontrivial", 1)
+		}
+		// C15 (third stage): an option whose value came from the environment only is not "set by user"
+		if c.On("C15") && obs.Accepted && !hasEnd && !r.Malformed {
+			c.Count("C15:evaluations", 1)
+			c.Count("C15:nontrivial", 1)
+			for i, o := range d.Opts {
+				want := len(r.OptVals[i]) > 0
+				if obs.SetByUser[i] != want {
+					c.Violation("C15", key, cs(), fmt.Sprintf("SetByUser of option %s = %v (command line gives %q, environment %q)", o.Key, want, r.OptVals[i], env[o.Key]), fmt.Sprintf("SetByUser=%v", obs.SetByUser[i]))
+					break
+				}
+			}
+		}
+		if !c.On("C12") {
+			continue
 		}
 		// (1) monotonic: accepted without the variables => accepted with them
 		if base.Accepted && !obs.Accepted {
